@@ -473,7 +473,10 @@ def rel3(ctx, c):
             seen.add(key)
             want = (1, 0) if hint.v == 2 else (2, 1)
             good = inc == want[0] and repr(mx) == repr(sz) and choice == want[1]
-            c.check(good, site + ":arm", "size+%d, max_size=size, choice[%d], hint %d" % (want[0], want[1], hint.v),
+            if inc is None or choice is None:
+                c.undecided(site + ":arm", "arm-effects-not-recognised", "size %r, post byte %r" % (sz, pb), where)
+            else:
+              c.check(good, site + ":arm", "size+%d, max_size=size, choice[%d], hint %d" % (want[0], want[1], hint.v),
                     "size+%s, max_size=%s, choice[%s], hint %s" % (inc, "size" if repr(mx) == repr(sz) else repr(mx), choice, hint.v),
                     "the %s %s arm sets size+%s, max_size %s, post-byte choice %s with pcr_size_hint %s; an %s offset needs size+%d, max_size=size, choice[%d]"
                     % (direction, arm, inc, repr(mx), choice, hint.v, arm, want[0], want[1]), where)
@@ -481,12 +484,31 @@ def rel3(ctx, c):
             continue
         # thresholds on the 8-bit arm
         thr = {}
+        penv = dict(ctx.env)
+        penv.update({k_: v_.v for k_, v_ in env.items() if isinstance(v_, Const) and isinstance(v_.v, int)})
+        unread = []
         for a, t in o.path.conds:
-            mm = re.fullmatch(r"(\w+) (<=|<) (\w+)", strip_ver(a))
-            if mm and t:
-                k = try_fold(ast.parse(mm.group(3), mode="eval").body, ctx.env)
-                if isinstance(k, int):
-                    thr[mm.group(1)] = k if mm.group(2) == "<=" else k - 1
+            try:
+                node_ = ast.parse(strip_ver(a), mode="eval").body
+            except SyntaxError:
+                continue
+            if not (isinstance(node_, ast.Compare) and len(node_.ops) == 1 and isinstance(node_.ops[0], (ast.Lt, ast.LtE, ast.Gt, ast.GtE))):
+                continue
+            l_, r_, op_ = node_.left, node_.comparators[0], node_.ops[0]
+            if isinstance(op_, (ast.Gt, ast.GtE)):
+                # a > K false  ==  a <= K
+                if t:
+                    continue
+                op_ = ast.LtE() if isinstance(op_, ast.Gt) else ast.Lt()
+            elif not t:
+                continue
+            k = try_fold(r_, penv)
+            names_ = [l_.id] if isinstance(l_, ast.Name) else ([x.id for x in l_.args] if isinstance(l_, ast.Call) and U(l_.func) == "max" and all(isinstance(x, ast.Name) for x in l_.args) else None)
+            if isinstance(k, int) and names_:
+                for nm_ in names_:
+                    thr[nm_] = k if isinstance(op_, ast.LtE) else k - 1
+            elif any(isinstance(x, ast.Name) and x.id in (maxv, minv) for x in ast.walk(node_)):
+                unread.append(strip_ver(a))
         limit = 128 if backward else 127
         key = (site, "thr", tuple(sorted(thr.items())), maxv, minv)
         if key in seen:
@@ -496,6 +518,9 @@ def rel3(ctx, c):
             c.finding(site + ":estimate", "no accumulator sums max_size over the window",
                       "the %s 8-bit decision is not based on an upper estimate (no variable accumulates statements[x].code_pkg.max_size): "
                       "unsized statements in between may still grow and push the offset out of 8 bits" % direction, where)
+            continue
+        if maxv not in thr and unread:
+            c.undecided(site + ":estimate", "test-on-the-estimate-not-read", unread[0][:80], where)
             continue
         if maxv not in thr:
             c.finding(site + ":estimate", "the upper estimate is not tested on the 8-bit arm (tests: %s)" % sorted(thr),
